@@ -320,3 +320,45 @@ Example ex_get_spec :
   v_get [(3, None); (1, Some 5)] 2 = Some 5 /\ v_get [(3, None); (1, Some 5)] 4 = None /\
   v_get [(3, None); (1, Some 5)] 0 = None.
 Proof. repeat split; reflexivity. Qed.
+
+(* ---------------------------------------------------------------- update then remove within one version *)
+
+(* Versioned::remove when the version being written already wrote an entry:
+   the entry is popped if it is the only one (nothing older to hide), otherwise it
+   becomes the removal marker of that version -- whatever was there before *)
+Theorem update_then_remove_same_version {T} (d : list (entry T)) w x :
+  v_remove (v_update d w x) w =
+  match v_rollback d w with
+  | [] => []
+  | b => (w, None) :: b
+  end.
+Proof.
+  rewrite v_update_eq, v_rollback_eq. destruct d as [|[lv lx] rest].
+  - rewrite v_remove_eq. now rewrite N.eqb_refl.
+  - destruct (N.eqb_spec lv w) as [->|Hne]; rewrite v_remove_eq, N.eqb_refl; [destruct rest; reflexivity|reflexivity].
+Qed.
+
+(* ... and then nothing is read at that version or later, older readers are not
+   affected, and a rollback still restores the cell *)
+Corollary update_then_remove_reads {T} (b : list (entry T)) w x r :
+  nov w b ->
+  v_rollback (v_remove (v_update b w x) w) w = b /\
+  (ver_le w r = false -> v_get (v_remove (v_update b w x) w) r = v_get b r) /\
+  (ver_le w r = true -> v_get (v_remove (v_update b w x) w) r = None).
+Proof.
+  intros Hb.
+  assert (Hs : shape w b (v_remove (v_update b w x) w)).
+  { apply (shape_step w b _ (CRem w) Hb eq_refl). apply (shape_step w b _ (CUpd w x) Hb eq_refl). now left. }
+  split; [now apply shape_rollback|split].
+  - intros Hr. now apply (shape_get w).
+  - intros Hr. rewrite update_then_remove_same_version.
+    assert (E : v_rollback b w = b) by (apply shape_rollback; [exact Hb|now left]). rewrite E.
+    destruct b as [|e rest]; [reflexivity|]. now rewrite v_get_cons, Hr.
+Qed.
+
+Example ex_update_remove_same :
+  v_remove (v_update ([] : list (entry N)) 1 5) 1 = [] /\
+  v_remove (v_update [(0, Some 7)] 1 5) 1 = [(1, None); (0, Some 7)] /\
+  v_remove (v_update [(1, Some 4); (0, Some 7)] 1 5) 1 = [(1, None); (0, Some 7)] /\
+  v_remove (v_update [(1, Some 4)] 1 5) 1 = [].
+Proof. repeat split; reflexivity. Qed.
